@@ -1,5 +1,13 @@
 (* Properties/C09.v - host parsing and serialization.  Only statements, closed by `exact`.
-   Lemmas: Proofs/C09_V6.v, C09_V6rt.v, C09_V6form.v, C09_V4.v, C09_Wf.v, C09_Host.v, C09_V6sim.v, C09_V6total.v. *)
+   Lemmas: Proofs/C09_V6.v, C09_V6rt.v, C09_V6form.v, C09_V4.v, C09_Wf.v, C09_Host.v, C09_V6sim.v, C09_V6total.v;
+   the host model against the hypothesis records of the URL-level theorems and against the Standard's host
+   parser: Proofs/C09_Inst.v, C09_InstSpec.v, Inst_Host.v (last sections). *)
+From Coq Require Import String.
+From RU Require Import Model.Uts46 Proofs.Idna_Known Proofs.Idna_Hyp Proofs.C09_InstIdna.
+From RU Require Import Model.UrlRecord Model.Parser Model.Setters Model.WF Model.Origin Spec.Whatwg Spec.WhatwgHostParse
+  Proofs.C02_Reach Proofs.C02_AuthParts Proofs.C02_Auth Proofs.C02_AuthMain
+  Proofs.C05_Enc Proofs.C05_Parser Proofs.C05_Setters Proofs.C05_History Proofs.C05_Sharp Proofs.C06_Host Proofs.C06_Main
+  Proofs.C16_Origin Proofs.C16_RT6Model Proofs.C09_Inst Proofs.C09_InstSpec Proofs.Inst_Host.
 From RU Require Import Base.Prelude Base.Utf8 Model.AsciiSet Gen.Tables Model.PercentEncoding Model.HostT Model.Host
   Spec.WhatwgHost Proofs.C09_V6 Proofs.C09_V6rt Proofs.C09_V6form Proofs.C09_V4 Proofs.C09_Wf Proofs.C09_Host
   Proofs.C09_V4spec Proofs.C09_V6spec Proofs.C09_Reject Proofs.C09_V6sim Proofs.C09_V6total.
@@ -257,3 +265,288 @@ Example C09_examples :
   /\ host_parse_opaque [97; 32] = Err InvalidDomainCharacter
   /\ host_parse (fun x => Some x) [49; 46; 50; 46; 51] = Ok (HIpv4 16908291).
 Proof. vm_compute. repeat split. Qed.
+
+(* ====================================================================================== *)
+(* The host model against the hypothesis records of the URL-level theorems                 *)
+(* ====================================================================================== *)
+(* C02, C05, C06 and C16 are proved for ABSTRACT host functions hp / hpo / hd under hypothesis records.
+   For the host model (host_parse idna, host_parse_opaque, host_display) the records hold relative to
+   IdnaOK idna alone:
+   HostRT (C02_AuthParts.v) - a non-empty host returned by either parser is displayed as a host text (ASCII,
+     non-empty, the authority scan stops exactly at its end, no '@') that the same parser reads back as the
+     same host; the empty host is displayed as nothing; parse_opaque "" is the empty host;
+   host_above - every displayed host is above U+0020;
+   HostOK of C05 (C05_Parser.v) - every host a parser can return is displayed inside 0x21..0x7E;
+   the IP clause of C05 (IpOK) and the text-matches-kind clause of C06 (host_disp_ok) for every Ipv4Addr /
+     Ipv6Addr VALUE (u32 / eight u16). *)
+Theorem C09_host_model_ok : forall idna, IdnaOK idna ->
+  HostRT (host_parse idna) host_parse_opaque host_display
+  /\ host_above (host_parse idna) host_parse_opaque host_display
+  /\ C05_Parser.HostOK (host_parse idna) host_parse_opaque host_display
+  /\ (forall h, ip_value h -> Forall ok_byte (host_display h) /\ host_disp_ok host_display h)
+  /\ (forall s h, host_parse idna s = Ok h \/ host_parse_opaque s = Ok h -> host_disp_ok host_display h).
+Proof. exact host_model_ok. Qed.
+Check C09_host_model_ok : forall idna, IdnaOK idna ->
+  HostRT (host_parse idna) host_parse_opaque host_display
+  /\ host_above (host_parse idna) host_parse_opaque host_display
+  /\ C05_Parser.HostOK (host_parse idna) host_parse_opaque host_display
+  /\ (forall h, ip_value h -> Forall ok_byte (host_display h) /\ host_disp_ok host_display h)
+  /\ (forall s h, host_parse idna s = Ok h \/ host_parse_opaque s = Ok h -> host_disp_ok host_display h).
+Print Assumptions C09_host_model_ok.
+
+(* HostOK of C02_Reach.v clause by clause: everything holds except `hp [] = Ok (HDomain [])` and the
+   Host::parse_opaque half of the set_ip_host clause for IPv4 values (refuted below) *)
+Theorem C09_host_model_HostOK_C02 : forall idna, IdnaOK idna ->
+  (forall s h, host_parse idna s = Ok h -> h <> HDomain [] ->
+     C02_Reach.host_text_ok (host_display h) /\ host_parse idna (host_display h) = Ok h)
+  /\ (forall s h, host_parse_opaque s = Ok h -> h <> HDomain [] ->
+     C02_Reach.host_text_ok (host_display h) /\ host_parse_opaque (host_display h) = Ok h)
+  /\ (forall h, op_args_ok (C02_Reach.OSetIpHost h) ->
+     C02_Reach.host_text_ok (host_display h) /\ host_parse idna (host_display h) = Ok h
+     /\ (forall ps, h = HIpv6 ps -> host_parse_opaque (host_display h) = Ok h))
+  /\ host_display (HDomain []) = [] /\ host_parse_opaque [] = Ok (HDomain []).
+Proof. exact model_HostOK_C02_true. Qed.
+Print Assumptions C09_host_model_HostOK_C02.
+
+(* ... and what is FALSE of the host model:
+   (a) HostOK of C02_Reach.v as a whole - Host::parse "" is an error for every IDNA function, never the empty
+       host; so the theorems of Properties/C02.v stated under HostOK cannot be instantiated, their HostRT forms
+       (C02_AuthMain.v) can;
+   (b) its set_ip_host clause for IPv4 under Host::parse_opaque - the dotted-decimal text of an Ipv4 value is
+       read back as a Domain: Url::parse("a://x/") then set_ip_host(127.0.0.1) has host() = Host::Ipv4, while
+       Url::parse of its serialization a://127.0.0.1/ has host() = Host::Domain("127.0.0.1");
+   (c) IpOK host_display of C05, which quantifies over values of the model type that are no Ipv4Addr;
+   (d) `forall h, host_disp_ok host_display h`, the gate of C05_components_step for set_host(Some _): Display is
+       the identity on domains, also on texts no parser returns (":"). *)
+Theorem C09_host_records_refuted :
+  (forall idna, ~ C02_Reach.HostOK (host_parse idna) host_parse_opaque host_display)
+  /\ (forall idna, host_parse idna [] <> Ok (HDomain []))
+  /\ (forall a, a < 4294967296 ->
+        host_parse_opaque (host_display (HIpv4 a)) = Ok (HDomain (ipv4_display a))
+        /\ host_parse_opaque (host_display (HIpv4 a)) <> Ok (HIpv4 a))
+  /\ ~ IpOK host_display
+  /\ ~ (forall h, host_disp_ok host_display h).
+Proof.
+  exact (conj model_HostOK_C02_refuted (conj host_parse_nil_refuted (conj opaque_ipv4_refuted
+           (conj model_IpOK_refuted host_disp_ok_all_refuted)))).
+Qed.
+Check C09_host_records_refuted :
+  (forall idna, ~ C02_Reach.HostOK (host_parse idna) host_parse_opaque host_display)
+  /\ (forall idna, host_parse idna [] <> Ok (HDomain []))
+  /\ (forall a, a < 4294967296 ->
+        host_parse_opaque (host_display (HIpv4 a)) = Ok (HDomain (ipv4_display a))
+        /\ host_parse_opaque (host_display (HIpv4 a)) <> Ok (HIpv4 a))
+  /\ ~ IpOK host_display
+  /\ ~ (forall h, host_disp_ok host_display h).
+Print Assumptions C09_host_records_refuted.
+
+(* the opaque half of C09_display_rt without the scalar-value hypothesis: EVERY list of numbers *)
+Theorem C09_opaque_display_rt_any : forall input h,
+  host_parse_opaque input = Ok h -> host_parse_opaque (host_display h) = Ok h.
+Proof.
+  intros input h H.
+  exact (x_ok_host_parse_opaque _ _ (opaque_display_rt_any input h (host_parse_opaque_ok_x _ _ H))).
+Qed.
+Check C09_opaque_display_rt_any : forall input h,
+  host_parse_opaque input = Ok h -> host_parse_opaque (host_display h) = Ok h.
+Print Assumptions C09_opaque_display_rt_any.
+
+(* ---- what IdnaOK amounts to for the IDNA model ----
+   idna_of A cfg = the function host.rs calls (domain_to_ascii_cow(bytes, AsciiDenyList::URL) of Model/Uts46.v,
+   on byte lists).  IdnaOK (idna_of A cfg) follows from three facts about ToASCII, two of them statements of
+   C10: C10_ascii_statement (ASCII, lower case, outside the deny list - the deny list regenerated from host.rs is
+   the URL list of uts46.rs plus upper case), idempotence at the URL options (C10_idem_statement claims it
+   outside Known_C12), and: dotted-decimal text is mapped to itself. *)
+Theorem C09_idna_premise : forall A cfg,
+  C10_ascii_statement A cfg -> idem_url A cfg -> v4_fixed A cfg -> IdnaOK (idna_of A cfg).
+Proof. exact IdnaOK_of_model. Qed.
+Check C09_idna_premise : forall A cfg,
+  C10_ascii_statement A cfg ->
+  (forall d b r, bytes d -> to_ascii A cfg d DENY_URL HAllow DIgnore = U32_c13.Ok (b, r) ->
+     exists b', to_ascii A cfg r DENY_URL HAllow DIgnore = U32_c13.Ok (b', r)) ->
+  (forall a, a < 4294967296 ->
+     exists b, to_ascii A cfg (ipv4_display a) DENY_URL HAllow DIgnore = U32_c13.Ok (b, ipv4_display a)) ->
+  IdnaOK (idna_of A cfg).
+Print Assumptions C09_idna_premise.
+
+Example C09_idna_premise_instances :
+  idna_of toy true [65; 98; 46; 99] = Some [97; 98; 46; 99]
+  /\ idna_of toy true [97; 98; 46; 99] = Some [97; 98; 46; 99]
+  /\ idna_of toy true (ipv4_display 16909060) = Some (ipv4_display 16909060)
+  /\ idna_of toy true [97; 32; 98] = None
+  /\ idna_of toy true [97; 300] = None
+  /\ host_parse (idna_of toy true) [65; 98; 46; 99] = Ok (HDomain [97; 98; 46; 99])
+  /\ host_parse (idna_of toy true) [48; 120; 49; 46; 50] = Ok (HIpv4 16777218).
+Proof. exact idna_of_examples. Qed.
+
+(* ====================================================================================== *)
+(* The Standard's host parser and serializer                                                *)
+(* ====================================================================================== *)
+(* spec_host_parser (Spec/WhatwgHostParse.v: the host parser of the Standard with "domain to ASCII" as a
+   function argument) equals the host model on every input, for both values of isOpaque, when both use the
+   same function idna and IdnaOK idna holds (only its first clause is used: outputs have no forbidden domain
+   code point - the check the Standard makes itself and host.rs delegates to the deny-list argument).
+   host_to_spec reads Ok (Domain d) as a domain / an opaque host / the empty host, failure as failure. *)
+Theorem C09_spec_host_parser : forall idna input, IdnaOK idna ->
+  spec_host_parser idna false input = host_to_spec false (host_parse idna input)
+  /\ (usv_list input -> spec_host_parser idna true input = host_to_spec true (host_parse_opaque input)).
+Proof. exact spec_host_parser_model. Qed.
+Check C09_spec_host_parser : forall idna input, IdnaOK idna ->
+  spec_host_parser idna false input = host_to_spec false (host_parse idna input)
+  /\ (usv_list input -> spec_host_parser idna true input = host_to_spec true (host_parse_opaque input)).
+Print Assumptions C09_spec_host_parser.
+
+(* the premise is needed: an oracle answering "a b" *)
+Theorem C09_spec_host_parser_premise :
+  let idna := fun _ : list N => Some [97; 32; 98] in
+  spec_host_parser idna false [120] = None /\ host_parse idna [120] = Ok (HDomain [97; 32; 98]).
+Proof. exact spec_domain_needs_premise. Qed.
+Print Assumptions C09_spec_host_parser_premise.
+
+(* the Standard's host serializer = Display for Host, on every host value *)
+Theorem C09_spec_host_serializer : forall is_opaque h,
+  match h with
+  | HIpv4 a => a < 4294967296
+  | HIpv6 p => length p = 8%nat /\ Forall (fun x => x < 65536) p
+  | HDomain _ => True
+  end ->
+  spec_host_serializer (spec_of_host is_opaque h) = host_display h.
+Proof. exact spec_serializer_model. Qed.
+Check C09_spec_host_serializer : forall is_opaque h,
+  match h with
+  | HIpv4 a => a < 4294967296
+  | HIpv6 p => length p = 8%nat /\ Forall (fun x => x < 65536) p
+  | HDomain _ => True
+  end ->
+  spec_host_serializer (spec_of_host is_opaque h) = host_display h.
+Print Assumptions C09_spec_host_serializer.
+
+(* ====================================================================================== *)
+(* Instantiations: parser model + host model, the only premise about hosts is IdnaOK idna   *)
+(* ====================================================================================== *)
+(* C02 (union of classes (i)-(iv)): every URL parsed without a base whose scheme is not "file" re-parses from
+   its serialization to the same record, is well formed and ASCII *)
+Theorem C09_inst_C02_reparse_nonfile : forall dbg idna, IdnaOK idna -> forall input u,
+  usv_list input -> nonfile_input input = true ->
+  parse_url dbg (host_parse idna) host_parse_opaque host_display None None input = POk u ->
+  parse_url dbg (host_parse idna) host_parse_opaque host_display None None (utf8_lossy (ser u)) = POk u
+  /\ wf_b u = true /\ ascii (ser u).
+Proof. exact reparse_nonfile_model. Qed.
+Check C09_inst_C02_reparse_nonfile : forall dbg idna, IdnaOK idna -> forall input u,
+  usv_list input -> nonfile_input input = true ->
+  parse_url dbg (host_parse idna) host_parse_opaque host_display None None input = POk u ->
+  parse_url dbg (host_parse idna) host_parse_opaque host_display None None (utf8_lossy (ser u)) = POk u
+  /\ wf_b u = true /\ ascii (ser u).
+Print Assumptions C09_inst_C02_reparse_nonfile.
+
+(* C02 class (iii), non-special scheme with authority (Host::parse_opaque), any encoding override *)
+Theorem C09_inst_C02_reparse_auth : forall dbg idna, IdnaOK idna -> forall ovr input u,
+  usv_list input -> auth_input input = true ->
+  parse_url dbg (host_parse idna) host_parse_opaque host_display ovr None input = POk u ->
+  parse_url dbg (host_parse idna) host_parse_opaque host_display None None (utf8_lossy (ser u)) = POk u
+  /\ wf_b u = true /\ canon_auth (host_parse idna) host_parse_opaque host_display STNotSpecial u.
+Proof. exact reparse_auth_model. Qed.
+Check C09_inst_C02_reparse_auth : forall dbg idna, IdnaOK idna -> forall ovr input u,
+  usv_list input -> auth_input input = true ->
+  parse_url dbg (host_parse idna) host_parse_opaque host_display ovr None input = POk u ->
+  parse_url dbg (host_parse idna) host_parse_opaque host_display None None (utf8_lossy (ser u)) = POk u
+  /\ wf_b u = true /\ canon_auth (host_parse idna) host_parse_opaque host_display STNotSpecial u.
+Print Assumptions C09_inst_C02_reparse_auth.
+
+(* C02 class (iv), special non-file scheme (Host::parse) *)
+Theorem C09_inst_C02_reparse_special : forall dbg idna, IdnaOK idna -> forall input u,
+  usv_list input -> special_input input = true ->
+  parse_url dbg (host_parse idna) host_parse_opaque host_display None None input = POk u ->
+  parse_url dbg (host_parse idna) host_parse_opaque host_display None None (utf8_lossy (ser u)) = POk u
+  /\ wf_b u = true /\ canon_special (host_parse idna) host_parse_opaque host_display u.
+Proof. exact reparse_special_model. Qed.
+Check C09_inst_C02_reparse_special : forall dbg idna, IdnaOK idna -> forall input u,
+  usv_list input -> special_input input = true ->
+  parse_url dbg (host_parse idna) host_parse_opaque host_display None None input = POk u ->
+  parse_url dbg (host_parse idna) host_parse_opaque host_display None None (utf8_lossy (ser u)) = POk u
+  /\ wf_b u = true /\ canon_special (host_parse idna) host_parse_opaque host_display u.
+Print Assumptions C09_inst_C02_reparse_special.
+
+(* ... but C02's full statement, read for the linked model, is FALSE: Url::parse("a://x/") then
+   set_ip_host(127.0.0.1) - a step outside every Known class of C02_Reach.v - gives a://127.0.0.1/ with host kind
+   Ipv4, and its serialization re-parses to the same text and offsets with host kind Domain (Host::parse_opaque
+   does not read IPv4; confirmed on the crate: host() differs, the two Urls compare equal).  Fixpoint_of_reparse
+   compares records.  A further class is needed: set_ip_host(V4) on a URL whose scheme is not special. *)
+Theorem C09_inst_C02_model_refuted : ~ C02_model_statement.
+Proof. exact C02_model_refuted. Qed.
+Check C09_inst_C02_model_refuted :
+  ~ (forall dbg idna, IdnaOK idna -> forall u,
+       C02_Reach.Reachable dbg (host_parse idna) host_parse_opaque host_display u ->
+       parse_url dbg (host_parse idna) host_parse_opaque host_display None None (utf8_lossy (ser u)) = POk u).
+Print Assumptions C09_inst_C02_model_refuted.
+
+(* C05, whole parser: any input (no range condition), any base with bytes in 0x20..0x7E, any override *)
+Theorem C09_inst_C05_parse : forall dbg idna, IdnaOK idna -> forall ovr base input u,
+  match base with Some b => Forall ok_or_space (ser b) | None => True end ->
+  parse_url dbg (host_parse idna) host_parse_opaque host_display ovr base input = POk u ->
+  Forall ok_or_space (ser u).
+Proof. exact parse_alphabet_model. Qed.
+Check C09_inst_C05_parse : forall dbg idna, IdnaOK idna -> forall ovr base input u,
+  match base with Some b => Forall ok_or_space (ser b) | None => True end ->
+  parse_url dbg (host_parse idna) host_parse_opaque host_display ovr base input = POk u ->
+  Forall ok_or_space (ser u).
+Print Assumptions C09_inst_C05_parse.
+
+(* C05, sharper: U+0020 only in an opaque path *)
+Theorem C09_inst_C05_bytes : forall dbg idna, IdnaOK idna -> forall ovr base input u, usv_list input ->
+  match base with Some b => sharp b | None => True end ->
+  parse_url dbg (host_parse idna) host_parse_opaque host_display ovr base input = POk u ->
+  sharp u.
+Proof. exact parse_sharp_model. Qed.
+Check C09_inst_C05_bytes : forall dbg idna, IdnaOK idna -> forall ovr base input u, usv_list input ->
+  match base with Some b => sharp b | None => True end ->
+  parse_url dbg (host_parse idna) host_parse_opaque host_display ovr base input = POk u ->
+  sharp u.
+Print Assumptions C09_inst_C05_bytes.
+
+(* C05, whole histories: ReachableM dbg idna = parse, join (any override) and the 19 mutators with arbitrary
+   arguments, the address given to Url::set_ip_host being an Ipv4Addr / Ipv6Addr value (ip_value) *)
+Theorem C09_inst_C05_history : forall dbg idna, IdnaOK idna -> forall u,
+  ReachableM dbg idna u -> Forall ok_or_space (ser u).
+Proof. exact history_alphabet_model. Qed.
+Check C09_inst_C05_history : forall dbg idna, IdnaOK idna -> forall u,
+  ReachableM dbg idna u -> Forall ok_or_space (ser u).
+Print Assumptions C09_inst_C05_history.
+
+(* C06: Url::set_ip_host with an address value keeps the record invariant (outside F-C03-5 / F-C02-4) *)
+Theorem C09_inst_C06_set_ip_host_wf : forall dbg idna, IdnaOK idna -> forall u h u' st, wfh u -> ip_value h ->
+  (has_authority_b u = true -> hi_of_host h = HI_None -> port u = None) ->
+  (has_authority_b u = false -> path_start u = scheme_end u + 1) ->
+  set_ip_host dbg host_display u h = Some (u', st) -> wfh u'.
+Proof. exact set_ip_host_wf_model. Qed.
+Print Assumptions C09_inst_C06_set_ip_host_wf.
+
+(* C16: the ASCII serialization of the tuple origin of ANY parse result parses back to a URL with that origin *)
+Theorem C09_inst_C16_rt_parsed : forall dbg idna, IdnaOK idna -> forall input u c o c',
+  url_parse dbg (host_parse idna) host_parse_opaque host_display input = POk u ->
+  url_origin dbg (host_parse idna) host_parse_opaque host_display c u = OOk o c' -> is_tuple o = true ->
+  nlen (ascii_serialization host_display o) < U32_MAX_P ->
+  exists w, url_parse dbg (host_parse idna) host_parse_opaque host_display (ascii_serialization host_display o) = POk w
+            /\ url_origin dbg (host_parse idna) host_parse_opaque host_display c' w = OOk o c'.
+Proof. exact origin_rt_model. Qed.
+Check C09_inst_C16_rt_parsed : forall dbg idna, IdnaOK idna -> forall input u c o c',
+  url_parse dbg (host_parse idna) host_parse_opaque host_display input = POk u ->
+  url_origin dbg (host_parse idna) host_parse_opaque host_display c u = OOk o c' -> is_tuple o = true ->
+  nlen (ascii_serialization host_display o) < U32_MAX_P ->
+  exists w, url_parse dbg (host_parse idna) host_parse_opaque host_display (ascii_serialization host_display o) = POk w
+            /\ url_origin dbg (host_parse idna) host_parse_opaque host_display c' w = OOk o c'.
+Print Assumptions C09_inst_C16_rt_parsed.
+
+(* non-vacuity: IdnaOK has an instance (idna_clean: the identity on ASCII text outside the deny list); with it
+   the linked model parses a://u@[::1]:81/x (opaque parser, IPv6 literal) and ws://x.y:80/p (default port
+   elided), reads http://1.2.3/ as the address 1.2.0.3 and refuses http://EXAMPLE.com/ (idna_clean does not
+   lower-case); the three inputs are in the classes of the theorems above *)
+Example C09_inst_examples :
+  IdnaOK idna_clean
+  /\ ex_ser (B "a://u@[::1]:81/x"%string) = Some (B "a://u@[::1]:81/x"%string)
+  /\ ex_ser (B "http://EXAMPLE.com/"%string) = None
+  /\ ex_ser (B "http://1.2.3/"%string) = Some (B "http://1.2.0.3/"%string)
+  /\ ex_ser (B "ws://x.y:80/p"%string) = Some (B "ws://x.y/p"%string)
+  /\ nonfile_input (B "http://1.2.3/"%string) = true /\ special_input (B "ws://x.y:80/p"%string) = true
+  /\ auth_input (B "a://u@[::1]:81/x"%string) = true.
+Proof. exact model_examples. Qed.
